@@ -200,6 +200,9 @@ impl Prop for C14 {
         if squeezed.contains("match ") {
             tags.push("has_match".into());
         }
+        if squeezed.contains("let {") {
+            tags.push("has_record_pattern".into());
+        }
         if squeezed.contains("type alias") {
             tags.push("has_type_alias".into());
         }
